@@ -168,10 +168,12 @@ func NewRankCache(maxEntries uint32) *rankCache {
 func (c *rankCache) Add(id uint64, n uint64) {
 	c.mu.Lock()
 	defer c.mu.Unlock()
-	// Ignore if the column count is below the threshold,
+	// Don't cache the count if it is below the threshold,
 	// unless the count is 0, which is effectively used
-	// to clear the cache value.
+	// to clear the cache value. A count cached earlier
+	// for this id is no longer valid, so drop it.
 	if n < c.thresholdValue && n > 0 {
+		delete(c.entries, id)
 		return
 	}
 
@@ -184,7 +186,10 @@ func (c *rankCache) Add(id uint64, n uint64) {
 func (c *rankCache) BulkAdd(id uint64, n uint64) {
 	c.mu.Lock()
 	defer c.mu.Unlock()
+	// Don't cache the count if it is below the threshold. A count cached
+	// earlier for this id is no longer valid, so drop it.
 	if n < c.thresholdValue {
+		delete(c.entries, id)
 		return
 	}
 
